@@ -71,6 +71,12 @@ def retirement_history():
     ops += ["qi %d" % by[3], "rst %d" % by[3], "qa", "qr", "qf", "drops"]
     for _ in range(4):
         new(); ops += ["qa", "qr", "qf"]
+    # scenario 3: an arena that holds retired slots is copied and cleared; the cleared arena must behave like a new one
+    ops += ["fork", "qeq", "clear", "qa", "qf"]
+    for _ in range(3):
+        ops.append("new %d" % v[0]); v[0] += 1
+        ops += ["qa", "qr", "qf"]
+    ops += ["swap", "qa", "clear", "qa", "new %d" % v[0], "qa"]
     ops += ["ql", "end"]
     return ops
 
@@ -116,7 +122,7 @@ def genwrap(pid, tier, seed, wd, bins, out):
             ops.append("rem %d" % h); h += 1; ops.append("qa")
     ops += ["new %d" % v, "qa", "qr", "ql", "end"]
     ops += retirement_history()
-    for build in (("release",) if tier == "quick" else ("release", "debug")):
+    for build in ("release", "debug"):
         r = vlib.run_ops_once(pid, wd, bins[build], build, ops, "genwrap-" + build)
         out["evaluations"] += r["stat"].get(pid, 0)
         for m in r["mon"]:
